@@ -31,8 +31,9 @@ class AppFault(Exception):
 
 
 class TrackedFile:
-    def __init__(self, data, start, seekable, closeable, log, idx):
+    def __init__(self, data, start, seekable, closeable, log, idx, close_raises=False):
         self._f = io.BytesIO(data)
+        self.close_raises = close_raises
         self._f.seek(start)
         self._seekable = seekable
         self.log = log
@@ -51,6 +52,8 @@ class TrackedFile:
     def _close(self):
         self.closed_count += 1
         self.log.append(("file_close", self.idx))
+        if self.close_raises:
+            raise OSError("app fault: file close")
 
 
 class TrackedIter:
@@ -167,7 +170,8 @@ class DslApp:
         if mode == "fw":
             fw = beh.get("fw") or {}
             data = filepattern(fw.get("len", 10))
-            f = TrackedFile(data, min(fw.get("start", 0), len(data)), fw.get("seekable", True), fw.get("closeable", True), self.log, idx)
+            f = TrackedFile(data, min(fw.get("start", 0), len(data)), fw.get("seekable", True), fw.get("closeable", True), self.log, idx,
+                            close_raises=bool(fw.get("close_raises")))
             self.files[idx] = f
             self.do_start(idx, beh, start_response)
             if ra and ra[0] == "return":
